@@ -45,6 +45,7 @@ var c02Kinds = []linkKind{
 	{"copy-of-A-under-another-name", "", "", false},
 	{"copy-of-A-with-forged-keyid-entry", "", "", false},
 	{"copy-of-C-with-forged-keyid-entry-carrying-C's-certificate", "", "", false},
+	{"copy-of-C-relabelled:forged-keyid-with-C's-signature-and-certificate", "", "", false},
 	{"A-plus-junk-signature-of-other-id-before", "A", "key", false},
 	{"A-plus-junk-signature-of-other-id-after", "A", "key", false},
 	{"A-plus-junk-signature-with-A's-id-first", "A", "key", true},
@@ -167,6 +168,19 @@ func newC02Env(c *core.Ctx, dsse bool) (*c02Env, error) {
 	}
 	put("copy-of-A-with-forged-keyid-entry", "s.deadbee1.link", forged(aBytes, ""))
 	put("copy-of-C-with-forged-keyid-entry-carrying-C's-certificate", "s.deadbee1.link", forged(cBytes, e.fn["C"].SigningKey().KeyVal.Certificate))
+	{
+		// the forged entry carries C's genuine signature value and certificate under a made-up key id
+		doc, _ := gen.ParseJSON(cBytes)
+		d := doc.(map[string]any)
+		orig := d["signatures"].([]any)[0].(map[string]any)
+		fe := map[string]any{"keyid": "deadbee2" + strings.Repeat("cd", 28), "sig": orig["sig"]}
+		if c, ok := orig["cert"]; ok {
+			fe["cert"] = c
+		}
+		d["signatures"] = []any{fe}
+		b, _ := json.Marshal(d)
+		put("copy-of-C-relabelled:forged-keyid-with-C's-signature-and-certificate", "s.deadbee2.link", b)
+	}
 	junk := func(keyid string, first bool) []byte {
 		doc, _ := gen.ParseJSON(aBytes)
 		d := doc.(map[string]any)
@@ -384,8 +398,67 @@ func runC02(c *core.Ctx) {
 			}
 		}
 	}
+	c02Redefined(c, owner, &acc)
 	c.Obs("thresholds_met_and_accepted", acc)
 	c.Obs("thresholds_not_met_and_rejected", rej)
+}
+
+// c02Redefined: a layout is free to define a key id with whatever key it likes.
+// After the functionaries' genuine keys have been used in this process, a second
+// layout defines A's key id with U's key material; a link signed by U under that
+// id is then the honest evidence of that layout and must be counted (and the
+// first layout, verified again afterwards, must still behave as before).
+func c02Redefined(c *core.Ctx, owner gen.KeyPair, acc *int64) {
+	for _, dsse := range []bool{false, true} {
+		id := fmt.Sprintf("redefined-key-id/dsse=%v", dsse)
+		if !c.Want(id) {
+			continue
+		}
+		env, err := newC02Env(c, dsse)
+		if err != nil {
+			continue
+		}
+		A, U := env.fn["A"], env.fn["U"]
+		allow := [][]string{{"ALLOW", "*"}}
+		dir := filepath.Join(c.WorkDir, "c02-redefined")
+		os.RemoveAll(dir)
+		os.MkdirAll(dir, 0755)
+		// phase 1: the ordinary layout, A's genuine key
+		l1 := gen.NewLayout([]intoto.Step{gen.Step("s", 1, gen.KeyIDs(A.KeyPair), allow, allow)}, nil, gen.KeyMap(A.KeyPair))
+		md1, _ := gen.SignedMeta(l1, dsse, owner.Priv)
+		gen.WriteLink(dir, c02Link("s"), A.Priv, dsse)
+		c.Begin(id)
+		o1 := Verify(VerifyArgs{Layout: md1, Keys: gen.KeyMap(owner), LinkDir: dir, Cwd: c.WorkDir})
+		// phase 2: another layout defines the same id with U's material
+		uAsA := U.Pub
+		uAsA.KeyID = A.Pub.KeyID
+		signAs := U.Priv
+		signAs.KeyID = A.Pub.KeyID
+		l2 := gen.NewLayout([]intoto.Step{gen.Step("s", 1, []string{A.Pub.KeyID}, allow, allow)}, nil, map[string]intoto.Key{A.Pub.KeyID: uAsA})
+		md2, _ := gen.SignedMeta(l2, dsse, owner.Priv)
+		dir2 := filepath.Join(c.WorkDir, "c02-redefined-2")
+		os.RemoveAll(dir2)
+		os.MkdirAll(dir2, 0755)
+		gen.WriteLink(dir2, c02Link("s"), signAs, dsse)
+		o2 := Verify(VerifyArgs{Layout: md2, Keys: gen.KeyMap(owner), LinkDir: dir2, Cwd: c.WorkDir})
+		// phase 3: the second layout against A's genuine link (must fail), the first layout again (must pass)
+		o3 := Verify(VerifyArgs{Layout: md2, Keys: gen.KeyMap(owner), LinkDir: dir, Cwd: c.WorkDir})
+		o4 := Verify(VerifyArgs{Layout: md1, Keys: gen.KeyMap(owner), LinkDir: dir, Cwd: c.WorkDir})
+		c.End(id)
+		c.Eval(4)
+		detail := map[string]any{"dsse": dsse, "layout1_genuine_key": errStr(o1.Err), "layout2_same_id_other_key_own_link": errStr(o2.Err), "layout2_with_link_of_the_genuine_key": errStr(o3.Err), "layout1_again": errStr(o4.Err)}
+		c.Class("redefined-key-id", dsse)
+		switch {
+		case !o1.Accepted() || !o4.Accepted():
+			c.Violation("honest link of the key the layout defines is not counted (sequence of layouts defining one key id differently)", id, detail)
+		case !o2.Accepted():
+			c.Violation("link signed by the key that the layout defines under an id is not counted after another layout used that id for another key", id, detail)
+		case o3.Accepted():
+			c.Violation("link signed by a key the layout does not define is counted (key id defined with other material by this layout)", id, detail)
+		default:
+			*acc++
+		}
+	}
 }
 
 func certCount(pop []int, mode string) int {
@@ -470,7 +543,7 @@ func init() {
 	core.Register(&core.Property{
 		ID:    "C02",
 		Level: "exploration",
-		Rule: "layout with steps t (earlier), s (under test), u (later); step s with threshold 1..3 and authorization by {2 listed keys, 1 certificate constraint + layout root/intermediate CA, both}; link-file populations for s = all multisets of size<=2 (quick) / <=3 (thorough, + 2000 random ones of size 4-8) over a catalogue of 21 link kinds (honest key A/B, honest certificate C / D via intermediate, tampered, unsigned, unauthorized key, key of an earlier / a later step, copy under another name, copy with forged key-id entry without / with the honest certificate, junk signatures before/after, expired / foreign-root / constraint-failing certificate, garbage, truncated JSON, link of another step renamed) x 2 wrappers; the earlier step t also admits certificate functionary C (its verdict must not leak into s); every population of >=2 files is verified 8 times (map order), half of the verifications with the intermediate of a foreign chain passed as caller-supplied intermediate; VerifyLinkSignatureThesholds is also called directly and its map inspected. Oracle: expected number of distinct counting functionaries known by construction. " +
+		Rule: "layout with steps t (earlier), s (under test), u (later); step s with threshold 1..3 and authorization by {2 listed keys, 1 certificate constraint + layout root/intermediate CA, both}; link-file populations for s = all multisets of size<=2 (quick) / <=3 (thorough, + 2000 random ones of size 4-8) over a catalogue of 22 link kinds (honest key A/B, honest certificate C / D via intermediate, tampered, unsigned, unauthorized key, key of an earlier / a later step, copy under another name, copy with forged key-id entry without / with the honest certificate, relabelled copy (forged id with the honest signature value and certificate), junk signatures before/after, expired / foreign-root / constraint-failing certificate, garbage, truncated JSON, link of another step renamed) x 2 wrappers; the earlier step t also admits certificate functionary C (its verdict must not leak into s); every population of >=2 files is verified 8 times (map order), half of the verifications with the intermediate of a foreign chain passed as caller-supplied intermediate; VerifyLinkSignatureThesholds is also called directly and its map inspected; finally a sequence of two layouts that define one key id with different key material. Oracle: expected number of distinct counting functionaries known by construction. " +
 			"non-trivial = at least one file for the step; distinct = (kind multiset, threshold, authorization, wrapper)",
 		Assumptions: []string{"a junk signature entry that carries the honest signer's own key id before the honest entry is not judged", "a link that an authorized functionary signed for ANOTHER step, renamed to this step's file name, is not judged (observed: it is counted; the statement only speaks about who signed)", "all links of a case report identical artifacts (agreement is C05's business)"},
 		Workers:     func(string) int { return 16 },
